@@ -115,6 +115,10 @@ def run(ctx):
     if limpl:
         corr_schedules(ctx, 'Lfs.v vs static/lfstack.h', limpl, lmodel, gen(ctx, LFS_PROGS, n, False, 'C11'), canon_c, oracle=oracle, nontrivial=contended,
                        tail='012345' * 150, scenario='scen_lfs (push, pop_blocking, pop_all_blocking, empty, node reuse)')
+    # the same scenarios with plain stores (node->next = head in push, node initialisation) as scheduling points and buffered stores: oracle only
+    for nm, src, progs, tso, tl in (('scen_wfs_plain', 'scen_wfs.c', WFS_MODEL_PROGS + WFS_ORACLE_PROGS, True, tail), ('scen_lfs_plain', 'scen_lfs.c', LFS_PROGS, False, '012345' * 150)):
+        pimpl = build_scenario(ctx, nm, src, plain=True)
+        if pimpl: corr_schedules(ctx, nm + ' LIFO with instrumented plain stores', pimpl, None, gen(ctx, progs, n // 2, tso, 'C11'), canon_c, oracle=oracle, nontrivial=contended, tail=tl, scenario=nm + ' (oracle only)')
     return finish(ctx, trusted=TRUSTED, rule='parking sweeps (each thread frozen at each program point, store buffered or flushed for wfstack) + bursty schedules; programs with 2-4 threads '
                   'pushing, popping, popping all and pushing popped nodes again; non-trivial = a waiter spun or a head cmpxchg failed; distinct = distinct (program, canonical trace)')
 
